@@ -6,32 +6,32 @@ Import ListNotations.
 Require Import PonyV.Model.C03Bexp PonyV.Model.C03Decomp PonyV.Model.C03Family PonyV.Proofs.C03Checker PonyV.Proofs.C03Roundtrip.
 
 (* ------------------------------------------------------------------ code shape *)
-Lemma elen_mk_or : forall ls, ls <> [] -> elen true (mk_or ls) = 2 * length ls.
+Lemma elen_mk_or : forall ls, ls <> [] -> elen true (mk_or ls) = lws ls.
 Proof.
   intros ls H. destruct ls as [|x [|y s]]; [congruence| |].
-  - cbn [mk_or]. rewrite elen_lit. reflexivity.
+  - cbn [mk_or lws]. rewrite elen_lit. lia.
   - unfold mk_or. rewrite elen_Or. apply elen_list_lits.
 Qed.
 
 Lemma comp_or_fwd : forall ls p nextcl,
   comp_or true TTop (TAt nextcl) false (map lit_bexp ls) p = or_fwd ls nextcl.
 Proof.
-  induction ls as [|[neg n] r IH]; intros p nextcl; [reflexivity|].
+  induction ls as [|l r IH]; intros p nextcl; [reflexivity|].
   destruct r as [|y s].
-  - cbn [map comp_or or_fwd]. rewrite comp_lit. destruct neg; reflexivity.
-  - change (map lit_bexp (Lit neg n :: y :: s)) with (lit_bexp (Lit neg n) :: lit_bexp y :: map lit_bexp s).
+  - cbn [map comp_or or_fwd]. rewrite comp_lit. reflexivity.
+  - change (map lit_bexp (l :: y :: s)) with (lit_bexp l :: lit_bexp y :: map lit_bexp s).
     rewrite comp_or_cons2, comp_lit. change (lit_bexp y :: map lit_bexp s) with (map lit_bexp (y :: s)).
-    rewrite IH. destruct neg; reflexivity.
+    rewrite IH. cbn [or_fwd]. apply app_cons_assoc.
 Qed.
 
-Lemma comp_mk_or : forall ls p, ls <> [] -> comp true (mk_or ls) p TTop false = or_fwd ls (p + 2 * length ls).
+Lemma comp_mk_or : forall ls p, ls <> [] -> comp true (mk_or ls) p TTop false = or_fwd ls (p + lws ls).
 Proof.
-  intros ls p H. destruct ls as [|[neg n] [|y s]]; [congruence| |].
-  - cbn [mk_or]. rewrite comp_lit. destruct neg; reflexivity.
+  intros ls p H. destruct ls as [|l [|y s]]; [congruence| |].
+  - cbn [mk_or or_fwd]. rewrite comp_lit. reflexivity.
   - unfold mk_or. rewrite comp_Or. rewrite elen_Or, elen_list_lits. apply comp_or_fwd.
 Qed.
 
-Lemma elen_list_cls : forall cls, Forall (fun ls => ls <> []) cls -> elen_list true (map mk_or cls) = 2 * total_lits cls.
+Lemma elen_list_cls : forall cls, Forall (fun ls => ls <> []) cls -> elen_list true (map mk_or cls) = total_lits cls.
 Proof.
   induction cls as [|ls r IH]; intro H; [reflexivity|].
   inversion H as [|? ? Hls Hr]; subst.
@@ -39,7 +39,7 @@ Proof.
   - cbn [map elen_list total_lits]. rewrite elen_mk_or by assumption. lia.
   - change (map mk_or (ls :: ls2 :: r2)) with (mk_or ls :: mk_or ls2 :: map mk_or r2).
     rewrite elen_list_cons2, elen_mk_or by assumption. change (mk_or ls2 :: map mk_or r2) with (map mk_or (ls2 :: r2)).
-    rewrite (IH Hr). cbn [total_lits]. lia.
+    rewrite (IH Hr). reflexivity.
 Qed.
 
 Lemma comp_and_cls : forall cls p, Forall (fun ls => ls <> []) cls ->
@@ -62,12 +62,23 @@ Proof.
     assert (Hes : mk_and_of es = And es) by reflexivity. rewrite Hes. rewrite comp_And. apply comp_and_cls. assumption.
 Qed.
 
+(* a clause = a chain of true-jumps to the next clause, then the last literal jumping back when false *)
+Lemma or_fwd_snoc : forall ls0 l a, or_fwd (ls0 ++ [l]) a = chain_code true (TAt a) ls0 ++ lval l ++ [ljmp l false TTop].
+Proof.
+  induction ls0 as [|l0 r IH]; intros l a; [reflexivity|].
+  cbn [app or_fwd chain_code]. destruct (r ++ [l]) eqn:E; [destruct r; discriminate|].
+  rewrite <- E, IH. rewrite <- app_assoc. reflexivity.
+Qed.
+
+Lemma or_fwd_split : forall ls a, ls <> [] -> exists ls0 l, ls = ls0 ++ [l] /\ or_fwd ls a = chain_code true (TAt a) ls0 ++ lval l ++ [ljmp l false TTop].
+Proof. intros ls a H. destruct (exists_last H) as [ls0 [l ->]]. exists ls0, l. split; [reflexivity | apply or_fwd_snoc]. Qed.
+
 Lemma no_fwd_or_fwd : forall ls a, no_fwd (or_fwd ls a).
 Proof.
-  induction ls as [|[neg n] r IH]; intros a t Hin; [exact Hin|].
-  cbn [or_fwd] in Hin. destruct r as [|y s].
-  - destruct Hin as [H|[H|H]]; try discriminate. exact H.
-  - destruct Hin as [H|[H|H]]; try discriminate. eapply IH; eassumption.
+  intros ls a. destruct ls as [|x r]; [intros t H; exact H|].
+  destruct (or_fwd_split (x :: r) a ltac:(discriminate)) as [ls0 [l [_ ->]]].
+  apply no_fwd_app; [apply no_fwd_chain|]. apply no_fwd_app; [apply no_fwd_lval|].
+  intros t [H|[]]. destruct (ljmp_facts l false TTop) as [_ [Hf _]]. exact (Hf t H).
 Qed.
 
 Lemma no_fwd_cnf_code : forall cls p, no_fwd (cnf_code cls p).
@@ -84,27 +95,34 @@ Proof.
 Qed.
 
 (* ------------------------------------------------------------------ conditions_end *)
-Lemma length_or_fwd : forall ls a, length (or_fwd ls a) = 2 * length ls.
+Lemma length_or_fwd : forall ls a, length (or_fwd ls a) = lws ls.
 Proof.
-  induction ls as [|[neg n] r IH]; intro a; [reflexivity|].
-  cbn [or_fwd]. destruct r as [|y s]; [reflexivity|]. cbn [length] in *. rewrite IH. lia.
+  intros ls a. destruct ls as [|x r]; [reflexivity|].
+  destruct (or_fwd_split (x :: r) a ltac:(discriminate)) as [ls0 [l [-> ->]]].
+  rewrite !app_length, length_chain, lws_app. cbn [length lws]. unfold lw. lia.
 Qed.
 
-Lemma length_cnf_code : forall cls p, length (cnf_code cls p) = 2 * total_lits cls.
+Lemma length_cnf_code : forall cls p, length (cnf_code cls p) = total_lits cls.
 Proof.
   induction cls as [|ls r IH]; intro p; [reflexivity|].
   cbn [cnf_code total_lits]. rewrite app_length, length_or_fwd, IH. lia.
 Qed.
 
-Lemma ce_from_or_fwd : forall ls a i acc, ls <> [] -> ce_from (or_fwd ls a) i acc = pos_of (i + 2 * length ls).
+Lemma ce_from_chain_fwd : forall c t ls i acc, ce_from (chain_code c (TAt t) ls) i acc = acc.
 Proof.
-  induction ls as [|[neg n] r IH]; intros a i acc H; [congruence|].
-  cbn [or_fwd]. destruct r as [|y s].
-  - cbn [ce_from is_back length]. f_equal. lia.
-  - cbn [ce_from is_back]. rewrite IH by discriminate. f_equal. cbn [length]. lia.
+  induction ls as [|l r IH]; intros i acc; [reflexivity|].
+  cbn [chain_code]. rewrite ce_from_app, ce_from_lval. cbn [ce_from].
+  destruct (ljmp_facts l c (TAt t)) as [_ [_ [_ [_ Hb]]]]. rewrite Hb. apply IH.
 Qed.
 
-Lemma ce_from_cnf_code : forall cls p i acc, wf_alts cls -> ce_from (cnf_code cls p) i acc = pos_of (i + 2 * total_lits cls).
+Lemma ce_from_or_fwd : forall ls a i acc, ls <> [] -> ce_from (or_fwd ls a) i acc = pos_of (i + lws ls).
+Proof.
+  intros ls a i acc H. destruct (or_fwd_split ls a H) as [ls0 [l [-> ->]]].
+  rewrite ce_from_app, ce_from_chain_fwd, length_chain, ce_from_app, ce_from_lval. cbn [ce_from].
+  destruct (ljmp_facts l false TTop) as [_ [_ [_ [_ Hb]]]]. rewrite Hb. f_equal. rewrite lws_app. cbn [lws]. unfold lw. lia.
+Qed.
+
+Lemma ce_from_cnf_code : forall cls p i acc, wf_alts cls -> ce_from (cnf_code cls p) i acc = pos_of (i + total_lits cls).
 Proof.
   induction cls as [|ls r IH]; intros p i acc [Hne Hall]; [congruence|].
   inversion Hall as [|? ? Hls Hr]; subst.
@@ -236,20 +254,35 @@ Proof.
 Qed.
 
 (* ------------------------------------------------------------------ the jumps of the CNF stream *)
-Lemma or_fwd_jump : forall ls a k ins t, nth_error (or_fwd ls a) k = Some ins -> target_of ins = Some t -> t = a /\ k + 1 < 2 * length ls.
+Lemma chain_jump : forall c a ls k ins t,
+  nth_error (chain_code c (TAt a) ls) k = Some ins -> target_of ins = Some t -> t = a.
 Proof.
-  induction ls as [|[neg n] r IH]; intros a k ins t Hn Ht; [destruct k; discriminate Hn|].
-  cbn [or_fwd] in Hn. destruct r as [|y s].
-  - destruct k as [|[|k]]; cbn in Hn; try (injection Hn as <-; discriminate Ht). destruct k; discriminate Hn.
-  - destruct k as [|[|k]]; cbn [nth_error] in Hn.
-    + injection Hn as <-. discriminate Ht.
-    + injection Hn as <-. cbn in Ht. injection Ht as <-. split; [reflexivity|]. cbn [length]. lia.
-    + apply (IH a k ins t) in Hn; [|exact Ht]. destruct Hn as [H1 H2]. split; [exact H1|]. cbn [length] in *. lia.
+  induction ls as [|l r IH]; intros k ins t Hn Ht; [destruct k; discriminate Hn|].
+  cbn [chain_code] in Hn. destruct (Nat.lt_ge_cases k (length (lval l))) as [Hk|Hk].
+  - rewrite nth_error_app1 in Hn by assumption. apply nth_error_In in Hn.
+    destruct (lval_facts l ins Hn) as [H _]. congruence.
+  - rewrite nth_error_app2 in Hn by assumption. destruct (k - length (lval l)) as [|k'] eqn:E; cbn [nth_error] in Hn.
+    + injection Hn as <-. destruct (ljmp_facts l c (TAt a)) as [_ [_ [_ [H _]]]]. congruence.
+    + exact (IH k' ins t Hn Ht).
+Qed.
+
+Lemma or_fwd_jump : forall ls a k ins t, nth_error (or_fwd ls a) k = Some ins -> target_of ins = Some t -> t = a /\ k + 1 < lws ls.
+Proof.
+  intros ls a k ins t Hn Ht. destruct ls as [|x r]; [destruct k; discriminate Hn|].
+  destruct (or_fwd_split (x :: r) a ltac:(discriminate)) as [ls0 [l [Hls Hc]]]. rewrite Hc in Hn. rewrite Hls, lws_app. cbn [lws].
+  pose proof (lw_pos l) as Hl2.
+  destruct (Nat.lt_ge_cases k (lws ls0)) as [Hk|Hk].
+  - rewrite nth_error_app1 in Hn by (rewrite length_chain; assumption). split; [exact (chain_jump _ _ _ _ _ _ Hn Ht) | lia].
+  - exfalso. rewrite nth_error_app2 in Hn by (rewrite length_chain; assumption). rewrite length_chain in Hn.
+    destruct (Nat.lt_ge_cases (k - lws ls0) (length (lval l))) as [Hk2|Hk2].
+    + rewrite nth_error_app1 in Hn by assumption. apply nth_error_In in Hn. destruct (lval_facts l ins Hn) as [H _]. congruence.
+    + rewrite nth_error_app2 in Hn by assumption. destruct (k - lws ls0 - length (lval l)) as [|[|m]]; cbn [nth_error] in Hn; try discriminate Hn.
+      injection Hn as <-. destruct (ljmp_facts l false TTop) as [_ [_ [_ [H _]]]]. congruence.
 Qed.
 
 Lemma cnf_jumps : forall cls i, Forall (fun ls => ls <> []) cls ->
   (forall k ins t, nth_error (cnf_code cls (pos_of i)) k = Some ins -> target_of ins = Some t ->
-                   pos_of (i + k) < t /\ t <= pos_of (i + 2 * total_lits cls)) /\
+                   pos_of (i + k) < t /\ t <= pos_of (i + total_lits cls)) /\
   (forall k ins t k2 ins2 t2,
      nth_error (cnf_code cls (pos_of i)) k = Some ins -> target_of ins = Some t ->
      nth_error (cnf_code cls (pos_of i)) k2 = Some ins2 -> target_of ins2 = Some t2 ->
@@ -258,14 +291,13 @@ Proof.
   induction cls as [|ls r IH]; intros i Hall.
   - split; [intros k ins t H; destruct k; discriminate H | intros k ins t k2 ins2 t2 H; destruct k; discriminate H].
   - inversion Hall as [|? ? Hls Hr]; subst.
-    assert (Hlen : length (or_fwd ls (pos_of i + 2 * length ls)) = 2 * length ls) by apply length_or_fwd.
-    assert (Hpos : pos_of i + 2 * length ls = pos_of (i + 2 * length ls)) by (unfold pos_of; lia).
-    destruct (IH (i + 2 * length ls) Hr) as [IH1 IH2].
-    (* where does an instruction of the stream lie *)
+    assert (Hlen : length (or_fwd ls (pos_of i + lws ls)) = lws ls) by apply length_or_fwd.
+    assert (Hpos : pos_of i + lws ls = pos_of (i + lws ls)) by (unfold pos_of; lia).
+    destruct (IH (i + lws ls) Hr) as [IH1 IH2].
     assert (Hsplit : forall k ins t, nth_error (cnf_code (ls :: r) (pos_of i)) k = Some ins -> target_of ins = Some t ->
-              (k + 1 < 2 * length ls /\ t = pos_of (i + 2 * length ls)) \/
-              (2 * length ls <= k /\ nth_error (cnf_code r (pos_of (i + 2 * length ls))) (k - 2 * length ls) = Some ins)).
-    { intros k ins t Hn Ht. cbn [cnf_code] in Hn. destruct (Nat.lt_ge_cases k (2 * length ls)) as [Hk|Hk].
+              (k + 1 < lws ls /\ t = pos_of (i + lws ls)) \/
+              (lws ls <= k /\ nth_error (cnf_code r (pos_of (i + lws ls))) (k - lws ls) = Some ins)).
+    { intros k ins t Hn Ht. cbn [cnf_code] in Hn. destruct (Nat.lt_ge_cases k (lws ls)) as [Hk|Hk].
       - rewrite nth_error_app1 in Hn by lia. apply (or_fwd_jump _ _ _ _ t) in Hn; [|exact Ht]. left. rewrite <- Hpos. destruct Hn; split; [lia|assumption].
       - rewrite nth_error_app2 in Hn by lia. rewrite Hlen, Hpos in Hn. right. split; assumption. }
     split.
@@ -297,7 +329,7 @@ Lemma or_jumps_cnf : forall cls, wf_alts cls ->
   forall x, In x (or_jumps (cnf_stream cls)) <-> exists t, jump_at (cnf_stream cls) x t.
 Proof.
   intros cls [Hne Hall] x. destruct (cnf_jumps cls 0 Hall) as [C1 C2].
-  rewrite (or_jumps_all (cnf_stream cls) (0 + 2 * total_lits cls)).
+  rewrite (or_jumps_all (cnf_stream cls) (0 + total_lits cls)).
   - split; [intros [t [H _]]; exists t; exact H|]. intros [t H]. exists t. split; [exact H|].
     destruct (cnf_jump_at _ _ _ H) as [k [ins [_ [H2 H3]]]]. apply (C1 _ _ _ H2 H3).
   - unfold cnf_stream. rewrite conditions_end_from, ce_from_app, ce_from_cnf_code by (split; assumption). reflexivity.
@@ -307,62 +339,6 @@ Proof.
     apply (C2 _ _ _ _ _ _ H2 H3 H5 H6 Hlt). split; [unfold pos_of in Hjo; lia | exact Hot].
 Qed.
 
-(* ------------------------------------------------------------------ a run of literals with OR-classified jumps to one target *)
-Definition or_jump (t : nat) (neg : bool) : instr := IJump (negb neg) t.
-
-Lemma run_chain_or : forall orj ce t ls rest i s,
-  (forall k, k <= 2 * length ls -> has_target s (pos_of (i + k)) = false) ->
-  (forall k, k <= 2 * length ls -> t <> pos_of (i + k)) ->
-  (forall k, k < length ls -> Nat.leb ce (pos_of (i + 2 * k + 1)) = false /\ existsb (Nat.eqb (pos_of (i + 2 * k + 1))) orj = true) ->
-  run orj ce [] (chain_code (or_jump t) ls ++ rest) i s =
-  run orj ce [] rest (i + 2 * length ls)
-      (mkState (rev (cl true t (chain_items (nextid s) ls)) ++ stack s)
-               (match ls with [] => targets s | _ => tsetdefault (targets s) t (nextid s) end)
-               (nextid s + length ls)).
-Proof.
-  intros orj ce t ls. induction ls as [|[neg n] r IH]; intros rest i s Hnt Htt Hcl.
-  - cbn [chain_code app length chain_items combine seq map cl rev]. rewrite !Nat.add_0_r. destruct s; reflexivity.
-  - cbn [chain_code app].
-    assert (H0 : has_target s (pos_of i) = false) by (rewrite <- (Nat.add_0_r i); apply Hnt; lia).
-    assert (H1 : has_target s (pos_of (S i)) = false) by (replace (S i) with (i + 1) by lia; apply Hnt; cbn [length]; lia).
-    assert (H2 : has_target s (pos_of (S (S i))) = false) by (replace (S (S i)) with (i + 2) by lia; apply Hnt; cbn [length]; lia).
-    rewrite (run_cons orj ce (ILoad n) _ i s (push (DAtom 0 0 n) s) eq_refl (step_load orj ce n i s H0)).
-    assert (Hstep : step orj ce [] (or_jump t neg) (S i) (push (DAtom 0 0 n) s) =
-                    Some (mkState (DBool (nextid s) t true [dlit (Lit neg n)] :: stack s)
-                                  (tsetdefault (targets s) t (nextid s)) (S (nextid s)))).
-    { unfold step. rewrite has_target_push, H1.
-      destruct (Hcl 0 ltac:(cbn [length]; lia)) as [Hce Horj]. rewrite Nat.mul_0_r, Nat.add_0_r in Hce, Horj.
-      replace (i + 1) with (S i) in Hce, Horj by lia.
-      unfold or_jump.
-      apply (cond_jump_general orj ce (pos_of (S i)) (pos_of (S (S i))) t (negb neg) n s true (dlit (Lit neg n))).
-      - assumption.
-      - rewrite Horj. destruct neg; reflexivity.
-      - rewrite H2. destruct s; reflexivity. }
-    rewrite (run_cons orj ce (or_jump t neg) _ (S i) _ _ eq_refl Hstep).
-    rewrite IH.
-    + cbn [stack targets nextid length]. f_equal; [lia|].
-      rewrite chain_items_cons. unfold cl. cbn [map rev fst snd]. rewrite <- app_assoc. cbn [app].
-      f_equal.
-      * destruct r as [|l2 r2]; [reflexivity|].
-        assert (Hg : tget (targets s) t = None \/ exists x, tget (targets s) t = Some x)
-          by (destruct (tget (targets s) t); [right; eexists; reflexivity | left; reflexivity]).
-        destruct Hg as [Hg|[x Hg]].
-        -- apply (tsetdefault_present _ _ _ (nextid s)). apply tget_tsetdefault_same. assumption.
-        -- rewrite (tsetdefault_present _ _ _ _ Hg). apply (tsetdefault_present _ _ _ _ Hg).
-      * lia.
-    + intros k Hk. cbn [stack targets nextid]. rewrite has_target_setdefault.
-      * replace (S (S i) + k) with (i + (2 + k)) by lia. unfold has_target in *. cbn [targets] in *. apply Hnt. cbn [length]. lia.
-      * replace (S (S i) + k) with (i + (2 + k)) by lia. apply Htt. cbn [length]. lia.
-    + intros k Hk. replace (S (S i) + k) with (i + (2 + k)) by lia. apply Htt. cbn [length]. lia.
-    + intros k Hk. replace (S (S i) + 2 * k + 1) with (i + 2 * (S k) + 1) by lia. apply Hcl. cbn [length]. lia.
-Qed.
-
-Lemma or_fwd_snoc : forall ls0 neg n a, or_fwd (ls0 ++ [Lit neg n]) a = chain_code (or_jump a) ls0 ++ [ILoad n; IBack neg].
-Proof.
-  induction ls0 as [|[neg0 n0] r IH]; intros neg n a; [reflexivity|].
-  cbn [app or_fwd chain_code or_jump]. destruct (r ++ [Lit neg n]) eqn:E; [destruct r; discriminate|].
-  rewrite <- E, IH. reflexivity.
-Qed.
 
 (* the node a clause decompiles to *)
 Definition clause_node (id0 t : nat) (ls : list lit) : dn :=
@@ -371,80 +347,81 @@ Definition clause_node (id0 t : nat) (ls : list lit) : dn :=
 (* one clause: its literals, the last of which jumps back to the loop top *)
 Lemma run_clause : forall orj ce ls rest i s,
   ls <> [] -> 1 <= nextid s ->
-  (forall k, k <= 2 * length ls -> has_target s (pos_of (i + k)) = false) ->
-  (forall k, k < length ls -> Nat.leb ce (pos_of (i + 2 * k + 1)) = false) ->
-  (forall k, k + 1 < length ls -> existsb (Nat.eqb (pos_of (i + 2 * k + 1))) orj = true) ->
-  existsb (Nat.eqb (pos_of (i + 2 * length ls - 1))) orj = false ->
-  run orj ce [] (or_fwd ls (pos_of (i + 2 * length ls)) ++ rest) i s =
-  run orj ce [] rest (i + 2 * length ls)
-      (mkState (DBool (nextid s + length ls - 1) TOP false [clause_node (nextid s) (pos_of (i + 2 * length ls)) ls] :: stack s)
+  (forall k, k <= lws ls -> has_target s (pos_of (i + k)) = false) ->
+  (forall k, k < lws ls -> Nat.leb ce (pos_of (i + k)) = false) ->
+  (forall pre l post, ls = pre ++ l :: post -> post <> [] -> existsb (Nat.eqb (pos_of (i + lws pre + length (lval l)))) orj = true) ->
+  existsb (Nat.eqb (pos_of (i + lws ls - 1))) orj = false ->
+  run orj ce [] (or_fwd ls (pos_of (i + lws ls)) ++ rest) i s =
+  run orj ce [] rest (i + lws ls)
+      (mkState (DBool (nextid s + length ls - 1) TOP false [clause_node (nextid s) (pos_of (i + lws ls)) ls] :: stack s)
                (tsetdefault (targets s) TOP (nextid s + length ls - 1))
                (nextid s + length ls)).
 Proof.
   intros orj ce ls rest i s Hne Hid Hnt Hce Hor Hand.
-  destruct (exists_last Hne) as [ls0 [[neg n] Hls]]. subst ls.
-  rewrite app_length in *. cbn [length] in *.
-  set (nextcl := pos_of (i + 2 * (length ls0 + 1))) in *.
+  destruct (exists_last Hne) as [ls0 [l Hls]]. subst ls.
+  rewrite app_length, lws_app in *. cbn [length lws] in *. rewrite Nat.add_0_r in *.
+  assert (Hlw : lw l = length (lval l) + 1) by reflexivity.
+  set (nextcl := pos_of (i + (lws ls0 + lw l))) in *.
   rewrite or_fwd_snoc, <- app_assoc.
-  rewrite run_chain_or.
+  rewrite run_chain.
   2:{ intros k Hk. apply Hnt. lia. }
-  2:{ intros k Hk. unfold nextcl, pos_of. lia. }
-  2:{ intros k Hk. split; [apply Hce; lia | apply Hor; lia]. }
+  2:{ intros k Hk. cbn [tpos]. unfold nextcl, pos_of. lia. }
+  2:{ intros k Hk. apply Hce. lia. }
+  2:{ intros pre l0 post Heq. apply (Hor pre l0 (post ++ [l])); [rewrite Heq, <- app_assoc; reflexivity | destruct post; discriminate]. }
+  cbn [tpos].
   set (s1 := {| stack := rev (cl true nextcl (chain_items (nextid s) ls0)) ++ stack s;
                 targets := match ls0 with [] => targets s | _ :: _ => tsetdefault (targets s) nextcl (nextid s) end;
                 nextid := nextid s + length ls0 |}).
-  set (i1 := i + 2 * length ls0).
-  assert (Hnt1 : forall k, k <= 1 -> has_target s1 (pos_of (i1 + k)) = false).
+  set (i1 := i + lws ls0).
+  assert (Hnt1 : forall k, k < lw l -> has_target s1 (pos_of (i1 + k)) = false).
   { intros k Hk. unfold s1. destruct ls0 as [|l0 r0].
-    - unfold has_target in *. cbn [targets] in *. unfold i1. rewrite <- Nat.add_assoc. apply Hnt. cbn [length]. lia.
+    - unfold has_target in *. cbn [targets] in *. unfold i1. rewrite <- Nat.add_assoc. apply Hnt. lia.
     - rewrite has_target_setdefault.
       + unfold has_target in *. cbn [targets] in *. unfold i1. rewrite <- Nat.add_assoc. apply Hnt. lia.
       + unfold nextcl, i1, pos_of. lia. }
-  cbn [app].
-  rewrite (run_cons orj ce (ILoad n) _ i1 s1 (push (DAtom 0 0 n) s1) eq_refl
-             (step_load orj ce n i1 s1 ltac:(rewrite <- (Nat.add_0_r i1); apply Hnt1; lia))).
-  assert (Hstep : step orj ce [] (IBack neg) (S i1) (push (DAtom 0 0 n) s1) =
-                  Some (mkState (DBool (nextid s + (length ls0 + 1) - 1) TOP false [clause_node (nextid s) nextcl (ls0 ++ [Lit neg n])] :: stack s)
+  rewrite <- app_assoc. rewrite run_lval by (intros k Hk; apply Hnt1; lia).
+  set (q := i1 + length (lval l)).
+  assert (Hq : S q = i + (lws ls0 + lw l)) by (unfold q, i1; lia).
+  assert (Hstep : step orj ce [] (ljmp l false TTop) q (push (dval l) s1) =
+                  Some (mkState (DBool (nextid s + (length ls0 + 1) - 1) TOP false [clause_node (nextid s) nextcl (ls0 ++ [l])] :: stack s)
                                 (tsetdefault (targets s) TOP (nextid s + (length ls0 + 1) - 1))
                                 (nextid s + (length ls0 + 1)))).
-  { unfold step. rewrite has_target_push. replace (S i1) with (i1 + 1) by lia. rewrite Hnt1 by lia.
-    replace (pos_of (S (i1 + 1))) with nextcl by (unfold nextcl, i1, pos_of; lia).
-    assert (HE : existsb (Nat.eqb (pos_of (i1 + 1))) orj = false).
-    { replace (i1 + 1) with (i + 2 * (length ls0 + 1) - 1) by (unfold i1; lia). assumption. }
-    assert (HC : Nat.leb ce (pos_of (i1 + 1)) = false).
-    { replace (i1 + 1) with (i + 2 * length ls0 + 1) by (unfold i1; lia). apply Hce. lia. }
-    replace (nextid s + (length ls0 + 1) - 1) with (nextid s1) by (unfold s1; cbn [nextid]; lia).
+  { replace (nextid s + (length ls0 + 1) - 1) with (nextid s1) by (unfold s1; cbn [nextid]; lia).
     replace (nextid s + (length ls0 + 1)) with (S (nextid s1)) by (unfold s1; cbn [nextid]; lia).
-    apply (cond_jump_general orj ce (pos_of (i1 + 1)) nextcl TOP neg n s1 false (dlit (Lit neg n))).
-    - assumption.
-    - rewrite HE. destruct neg; reflexivity.
-    - destruct ls0 as [|l0 r0].
+    apply (lit_jump orj ce l false TTop q s1).
+    - unfold q. apply Hnt1. lia.
+    - replace q with (i + (lws ls0 + length (lval l))) by (unfold q, i1; lia). apply Hce. lia.
+    - replace q with (i + (lws ls0 + lw l) - 1) by (unfold q, i1; lia). exact Hand.
+    - rewrite Hq. fold nextcl.
+      destruct ls0 as [|l0 r0].
       + assert (Hno : has_target s1 nextcl = false).
-        { unfold s1. unfold has_target in *. cbn [targets] in *. unfold nextcl. apply Hnt. cbn [length]. lia. }
+        { unfold s1. unfold has_target in *. cbn [targets] in *. unfold nextcl. apply Hnt. cbn [lws]. lia. }
         rewrite Hno. unfold s1. cbn [push stack targets nextid chain_items length seq map combine cl rev app clause_node]. reflexivity.
       + assert (Hnone : tget (targets s) nextcl = None).
-        { specialize (Hnt (2 * (length (l0 :: r0) + 1)) (le_n _)). unfold has_target in Hnt. fold nextcl in Hnt.
+        { specialize (Hnt (lws (l0 :: r0) + lw l) (le_n _)). unfold has_target in Hnt. fold nextcl in Hnt.
           destruct (tget (targets s) nextcl); [discriminate|reflexivity]. }
         assert (Hyes : tget (targets s1) nextcl = Some (nextid s)).
         { unfold s1. cbn [targets]. apply tget_tsetdefault_same. assumption. }
         assert (Hht : has_target s1 nextcl = true) by (unfold has_target; rewrite Hyes; reflexivity).
         rewrite Hht.
-        rewrite (process_target_lim nextcl (push (dlit (Lit neg n)) s1) (dlit (Lit neg n)) (stack s1) (nextid s) eq_refl
+        rewrite (process_target_lim nextcl (push (dlit l) s1) (dlit l) (stack s1) (nextid s) eq_refl
                    ltac:(unfold nextcl, pos_of; lia) Hyes).
         cbn [push targets nextid stack]. unfold s1 at 1 2. cbn [stack targets nextid].
         rewrite tdel_tsetdefault by assumption.
         rewrite merge_first; [| apply plain_dlit | apply same_id_dlit | | discriminate].
         * rewrite hd_chain_items by discriminate. rewrite map_snd_chain_items.
-          assert (Hep : ep_of (dlit (Lit neg n)) = 0) by (destruct neg; reflexivity). rewrite Hep, Nat.max_0_r.
+          rewrite ep_dlit, Nat.max_0_r.
           rewrite pt_stop_lim.
           -- unfold s1. cbn [nextid]. cbn [clause_node app map].
-             destruct (r0 ++ [Lit neg n]) eqn:E; [destruct r0; discriminate|]. rewrite <- E.
+             destruct (r0 ++ [l]) eqn:E; [destruct r0; discriminate|]. rewrite <- E.
              rewrite map_app. reflexivity.
-          -- cbn [map app]. destruct (map dlit r0 ++ [dlit (Lit neg n)]) eqn:E; [destruct r0; discriminate|]. apply simplify_multi.
+          -- cbn [map app]. destruct (map dlit r0 ++ [dlit l]) eqn:E; [destruct r0; discriminate|]. apply simplify_multi.
           -- unfold same_id. cbn [id_of]. rewrite Nat.eqb_refl. destruct (nextid s); [lia|reflexivity].
         * intros k d Hin. rewrite chain_items_cons in Hin. cbn [tl] in Hin. apply chain_items_ids in Hin. cbn [not_lim]. lia. }
-  rewrite (run_cons orj ce (IBack neg) _ (S i1) _ _ eq_refl Hstep).
-  f_equal. unfold i1. lia.
+  destruct (ljmp_facts l false TTop) as [_ [_ [Hfin _]]].
+  cbn [app].
+  rewrite (run_cons orj ce (ljmp l false TTop) _ q _ _ Hfin Hstep).
+  f_equal. lia.
 Qed.
 
 (* ------------------------------------------------------------------ all clauses, then the yield *)
@@ -472,7 +449,7 @@ Lemma final_of_facts : forall d, node_ok d ->
   (forall lim, lim = None -> same_id (final_of d) lim = false) /\ strip (final_of d) = strip d.
 Proof.
   intros d [[l ->]|[id [t [x [y [vs [-> Ht]]]]]]].
-  - destruct l as [[] n]; cbn; repeat split; intros; subst; reflexivity.
+  - destruct l as [[] n|[] ne a b|isnot a]; cbn; repeat split; intros; subst; reflexivity.
   - unfold final_of. cbn [ep_of]. replace (t <? TOP) with false by (symmetry; apply Nat.ltb_ge; unfold TOP; lia).
     repeat split; try reflexivity; try discriminate. intros lim ->. reflexivity.
 Qed.
@@ -482,9 +459,30 @@ Definition all_or_one (l : list ptree) : ptree := match l with [x] => x | _ => P
 Definition items_ok (items : list (nat * dn)) (n : nat) : Prop :=
   StronglySorted lt (map fst items) /\ (forall k, In k (map fst items) -> 1 <= k < n) /\ Forall node_ok (map snd items).
 
+
+Lemma or_fwd_nth_jump : forall pre l post a, post <> [] ->
+  nth_error (or_fwd (pre ++ l :: post) a) (lws pre + length (lval l)) = Some (ljmp l true (TAt a)).
+Proof.
+  induction pre as [|x r IH]; intros l post a Hp.
+  - cbn [app lws or_fwd]. destruct post as [|y s]; [congruence|].
+    rewrite nth_error_app2 by lia. replace (0 + length (lval l) - length (lval l)) with 0 by lia. reflexivity.
+  - cbn [app lws or_fwd]. destruct (r ++ l :: post) eqn:E; [destruct r; discriminate|]. rewrite <- E.
+    rewrite nth_error_app2 by (unfold lw; lia).
+    replace (lw x + lws r + length (lval l) - length (lval x)) with (S (lws r + length (lval l))) by (unfold lw; lia).
+    cbn [nth_error]. apply IH. exact Hp.
+Qed.
+
+Lemma or_fwd_nth_last : forall ls0 l a, nth_error (or_fwd (ls0 ++ [l]) a) (lws (ls0 ++ [l]) - 1) = Some (ljmp l false TTop).
+Proof.
+  intros ls0 l a. rewrite or_fwd_snoc, lws_app. cbn [lws].
+  rewrite nth_error_app2 by (rewrite length_chain; unfold lw; lia). rewrite length_chain.
+  rewrite nth_error_app2 by (unfold lw; lia).
+  replace (lws ls0 + (lw l + 0) - 1 - lws ls0 - length (lval l)) with 0 by (unfold lw; lia). reflexivity.
+Qed.
+
 Lemma run_cnf_from : forall cls orj ce i s items,
   Forall (fun ls => ls <> []) cls ->
-  ce = pos_of (i + 2 * total_lits cls) ->
+  ce = pos_of (i + total_lits cls) ->
   (forall q ins, nth_error (cnf_code cls (pos_of i)) q = Some ins ->
                  (existsb (Nat.eqb (pos_of (i + q))) orj = true <-> exists t, target_of ins = Some t)) ->
   stack s = rev (cl false TOP items) ++ [DComp 0 0] ->
@@ -532,57 +530,45 @@ Proof.
         destruct (map strip (map snd r0)) as [|b c]; reflexivity.
   - (* one more clause *)
     inversion Hall as [|a0 b0 Hls Hr]; subst a0 b0.
-    assert (Hl : 1 <= length ls) by (destruct ls; [congruence | cbn [length]; lia]).
+    assert (Hl : 2 <= lws ls) by (apply lws_pos; assumption).
     rewrite total_lits_cons in Hce.
-    cbn [cnf_code]. replace (pos_of i + 2 * length ls) with (pos_of (i + 2 * length ls)) by (unfold pos_of; lia).
+    cbn [cnf_code]. replace (pos_of i + lws ls) with (pos_of (i + lws ls)) by (unfold pos_of; lia).
     rewrite <- app_assoc.
-    (* classification of the jumps of this clause *)
-    assert (Hlen : length (or_fwd ls (pos_of (i + 2 * length ls))) = 2 * length ls) by apply length_or_fwd.
-    assert (Hcode_eq : cnf_code (ls :: r) (pos_of i) = or_fwd ls (pos_of (i + 2 * length ls)) ++ cnf_code r (pos_of (i + 2 * length ls))).
-    { cbn [cnf_code]. replace (pos_of i + 2 * length ls) with (pos_of (i + 2 * length ls)) by (unfold pos_of; lia). reflexivity. }
-    destruct (exists_last Hls) as [ls0 [[neg n] Hlsd]].
-    assert (Hfwd : forall k, k + 1 < length ls -> existsb (Nat.eqb (pos_of (i + 2 * k + 1))) orj = true).
-    { intros k Hk. replace (i + 2 * k + 1) with (i + (2 * k + 1)) by lia.
-      assert (Hn : exists neg0, nth_error (or_fwd ls (pos_of (i + 2 * length ls))) (2 * k + 1) = Some (IJump (negb neg0) (pos_of (i + 2 * length ls)))).
-      { clear - Hk. revert k Hk. generalize (pos_of (i + 2 * length ls)) as a. induction ls as [|[neg0 n0] r0 IHl]; intros a k Hk; [cbn in Hk; lia|].
-        cbn [or_fwd]. destruct r0 as [|y s0]; [cbn [length] in Hk; lia|].
-        destruct k as [|k].
-        - exists neg0. reflexivity.
-        - replace (2 * S k + 1) with (S (S (2 * k + 1))) by lia. cbn [nth_error]. apply IHl. cbn [length] in *. lia. }
-      destruct Hn as [neg0 Hn].
-      apply (Horj (2 * k + 1) (IJump (negb neg0) (pos_of (i + 2 * length ls)))).
-      - rewrite Hcode_eq, nth_error_app1 by lia. exact Hn.
-      - eexists. reflexivity. }
-    assert (Hback : existsb (Nat.eqb (pos_of (i + 2 * length ls - 1))) orj = false).
+    assert (Hlen : length (or_fwd ls (pos_of (i + lws ls))) = lws ls) by apply length_or_fwd.
+    assert (Hcode_eq : cnf_code (ls :: r) (pos_of i) = or_fwd ls (pos_of (i + lws ls)) ++ cnf_code r (pos_of (i + lws ls))).
+    { cbn [cnf_code]. replace (pos_of i + lws ls) with (pos_of (i + lws ls)) by (unfold pos_of; lia). reflexivity. }
+    assert (Hfwd : forall pre l post, ls = pre ++ l :: post -> post <> [] ->
+              existsb (Nat.eqb (pos_of (i + lws pre + length (lval l)))) orj = true).
+    { intros pre l post Heq Hp. replace (i + lws pre + length (lval l)) with (i + (lws pre + length (lval l))) by lia.
+      apply (Horj _ (ljmp l true (TAt (pos_of (i + lws ls))))).
+      - rewrite Hcode_eq, nth_error_app1.
+        + rewrite Heq at 1. apply or_fwd_nth_jump. exact Hp.
+        + rewrite Hlen, Heq, lws_app. cbn [lws]. unfold lw. pose proof (lws_pos post Hp). lia.
+      - destruct (ljmp_facts l true (TAt (pos_of (i + lws ls)))) as [_ [_ [_ [Ht _]]]]. eexists. exact Ht. }
+    assert (Hback : existsb (Nat.eqb (pos_of (i + lws ls - 1))) orj = false).
     { apply existsb_false_of_not_true. intro H.
-      replace (i + 2 * length ls - 1) with (i + (2 * length ls - 1)) in H by lia.
-      assert (Hn : nth_error (or_fwd ls (pos_of (i + 2 * length ls))) (2 * length ls - 1) = Some (IBack neg)).
-      { subst ls. rewrite or_fwd_snoc. rewrite nth_error_app2.
-        - assert (Hcl : length (chain_code (or_jump (pos_of (i + 2 * length (ls0 ++ [Lit neg n])))) ls0) = 2 * length ls0).
-          { clear. generalize (or_jump (pos_of (i + 2 * length (ls0 ++ [Lit neg n])))) as mk. intro mk. induction ls0 as [|[a b] r0 IHl]; [reflexivity|]. cbn [chain_code length]. rewrite IHl. lia. }
-          rewrite Hcl, app_length. cbn [length]. replace (2 * (length ls0 + 1) - 1 - 2 * length ls0) with 1 by lia. reflexivity.
-        - assert (Hcl : length (chain_code (or_jump (pos_of (i + 2 * length (ls0 ++ [Lit neg n])))) ls0) = 2 * length ls0).
-          { clear. generalize (or_jump (pos_of (i + 2 * length (ls0 ++ [Lit neg n])))) as mk. intro mk. induction ls0 as [|[a b] r0 IHl]; [reflexivity|]. cbn [chain_code length]. rewrite IHl. lia. }
-          rewrite Hcl, app_length. cbn [length]. lia. }
-      apply (Horj (2 * length ls - 1) (IBack neg)) in H.
-      - destruct H as [t Ht]. discriminate Ht.
-      - rewrite Hcode_eq, nth_error_app1 by lia. exact Hn. }
+      destruct (exists_last Hls) as [ls0 [l Hlsd]].
+      replace (i + lws ls - 1) with (i + (lws ls - 1)) in H by lia.
+      apply (Horj (lws ls - 1) (ljmp l false TTop)) in H.
+      - destruct H as [t Ht]. destruct (ljmp_facts l false TTop) as [_ [_ [_ [Hn _]]]]. congruence.
+      - rewrite Hcode_eq, nth_error_app1 by lia. rewrite Hlsd at 1 2. rewrite Hlsd. apply or_fwd_nth_last. }
     rewrite run_clause; try assumption.
     + set (newid := nextid s + length ls - 1).
-      set (A := clause_node (nextid s) (pos_of (i + 2 * length ls)) ls).
-      destruct (IH orj ce (i + 2 * length ls)
+      set (A := clause_node (nextid s) (pos_of (i + lws ls)) ls).
+      assert (Hlen1 : 1 <= length ls) by (destruct ls; [congruence | cbn [length]; lia]).
+      destruct (IH orj ce (i + lws ls)
                    {| stack := DBool newid TOP false [A] :: stack s; targets := tsetdefault (targets s) TOP newid; nextid := nextid s + length ls |}
                    (items ++ [(newid, A)]) Hr) as [final [Hrun Hstrip]].
       * rewrite Hce. f_equal. lia.
-      * intros q ins Hn. replace (i + 2 * length ls + q) with (i + (2 * length ls + q)) by lia.
-        apply Horj. rewrite Hcode_eq, nth_error_app2 by lia. rewrite Hlen. replace (2 * length ls + q - 2 * length ls) with q by lia. exact Hn.
+      * intros q ins Hn. replace (i + lws ls + q) with (i + (lws ls + q)) by lia.
+        apply Horj. rewrite Hcode_eq, nth_error_app2 by lia. rewrite Hlen. replace (lws ls + q - lws ls) with q by lia. exact Hn.
       * cbn [stack]. rewrite Hst. unfold cl. rewrite map_app, rev_app_distr. reflexivity.
       * cbn [targets]. rewrite Hts. destruct items as [|[k1 d1] orest]; cbn [app fst].
         -- reflexivity.
         -- unfold tsetdefault. cbn [tget]. rewrite Nat.eqb_refl. reflexivity.
       * cbn [nextid]. lia.
       * cbn [nextid]. split; [|split].
-        -- rewrite map_app. cbn [map fst]. clear - Hsorted Hrange Hl. unfold newid.
+        -- rewrite map_app. cbn [map fst]. clear - Hsorted Hrange Hlen1. unfold newid.
            induction (map fst items) as [|a l IHl]; cbn [app]; [repeat constructor|].
            inversion Hsorted as [|a1 l1 Hs1 Hf1]; subst a1 l1. constructor.
            ++ apply IHl; [assumption|]. intros k Hk. apply Hrange. right. assumption.
@@ -626,10 +612,10 @@ Qed.
 
 Lemma no_copy_or_fwd : forall ls a, ~ In ICopy (or_fwd ls a).
 Proof.
-  induction ls as [|[neg n] r IH]; intros a H; [exact H|].
-  cbn [or_fwd] in H. destruct r as [|y s].
-  - destruct H as [H|[H|H]]; try discriminate. exact H.
-  - destruct H as [H|[H|H]]; try discriminate. exact (IH _ H).
+  intros ls a H. destruct ls as [|x r]; [exact H|].
+  destruct (or_fwd_split (x :: r) a ltac:(discriminate)) as [ls0 [l [_ Hc]]]. rewrite Hc in H.
+  apply in_app_or in H. destruct H as [H|H]; [exact (no_copy_chain _ _ _ H)|].
+  apply in_app_or in H. destruct H as [H|[H|[]]]; [exact (no_copy_lval l H)|]. destruct (ljmp_facts l false TTop) as [Hn _]. exact (Hn H).
 Qed.
 Lemma no_copy_cnf_code : forall cls p, ~ In ICopy (cnf_code cls p).
 Proof.
@@ -643,14 +629,14 @@ Proof.
   assert (Hne : cls <> []) by (destruct Hwf; assumption).
   unfold decompile. rewrite compile_cnf by assumption. fold (cnf_stream cls).
   unfold decompile_code.
-  assert (Hce : conditions_end (cnf_stream cls) = pos_of (0 + 2 * total_lits cls)).
+  assert (Hce : conditions_end (cnf_stream cls) = pos_of (0 + total_lits cls)).
   { unfold cnf_stream. rewrite conditions_end_from, ce_from_app, ce_from_cnf_code by assumption. reflexivity. }
   rewrite Hce.
   assert (Hvj : value_jumps (cnf_stream cls) = []).
   { rewrite value_jumps_from. apply vj_from_no_copy. unfold cnf_stream. intro H. apply in_app_or in H.
     destruct H as [H|[H|[H|[]]]]; try discriminate H. exact (no_copy_cnf_code _ _ H). }
   rewrite Hvj.
-  destruct (run_cnf_from cls (or_jumps (cnf_stream cls)) (pos_of (0 + 2 * total_lits cls)) 0 (init_state PFilter) [] Hall eq_refl)
+  destruct (run_cnf_from cls (or_jumps (cnf_stream cls)) (pos_of (0 + total_lits cls)) 0 (init_state PFilter) [] Hall eq_refl)
     as [final [Hrun Hstrip]].
   - intros q ins Hn. rewrite existsb_exists. split.
     + intros [x [Hx He]]. apply Nat.eqb_eq in He. subst x. apply (or_jumps_cnf cls Hwf) in Hx. destruct Hx as [t Hj].
